@@ -90,7 +90,7 @@ std::string snapshot(OPN2_MIDIPlayer *dev, State &st)
         ctl.bo(c.vibpos == 0.0); ctl.bo(c.nrpn); ctl.bo(c.is_xg_percussion);
         ctl.i(c.portamentoSource); ctl.i(c.bend); ctl.i(c.bendsense_msb); ctl.i(c.bendsense_lsb); ctl.i(c.vibdelay_us);
         ctl.i(c.lastlrpn); ctl.i(c.lastmrpn); ctl.i(c.brightness);
-        for(int k = 0; k < 128; ++k) ctl.i(c.noteAftertouch[k]);
+        if(c.noteAfterTouchInUse) for(int k = 0; k < 128; ++k) ctl.i(c.noteAftertouch[k]);
     }
     H rh;
     for(size_t c = 0; c < chips.size(); ++c)
